@@ -8,10 +8,29 @@
   strictly below its target (acyclic).  With the tight ranking (`Tight`: sensors 0, neurons 1 + max of sources)
   `lvl o` is the length of the longest sensor-to-`o` path.
 
-  Kind A (every scalar type, every activation table, exact, same summation order): `std_forward`.
-  Helper lemmas: Proofs/SolverFF.lean.
+  Kind A (every scalar type, every activation table, exact, same summation order): `std_forward` (standard solver
+  against `evalNode`); `fast_recursive_fval` (fast recursive activation against `fvalNode`, the feed-forward function of
+  the fast representation); `fast_forward_partial` (one forward step, cell by cell).
+  Kind B (exact arithmetic, `[CommSemiring K] [ExactArith K]`): `translation_partial` (the translation of one neuron:
+  connections + folded bias = Σ incoming weight·source).
+  Helper lemmas: Proofs/SolverFF.lean, Proofs/FastFF.lean, Proofs/SolverExact.lean.
+
+  Full statements NOT proved (hence the `_partial` names), with what is missing:
+  * `fast_forward : k ≥ depth → outputs after LoadSensors; ForwardSteps k = fvalNode` and the same for `Relax` run for
+    ≥ depth steps: the induction over rank layers on top of `fast_forward_partial` (as `Solver.sweeps_step` /
+    `fwdLoop_ff` do for the standard solver), plus the bridge `adjacentMatrix[s][t] = weight of the connection s→t`
+    (needs "no node pair is joined twice") to identify `tFold` over the connections into `t` with `adjSum` over
+    `reverseAdjacentList[t]`.
+  * `fval_eq_eval` (Kind B): for `ofNet net = ok fn` and `idx` = `neuronLookup`, `fvalNode fn σ sig f (idx i) =
+    evalNode net σ sens f i`: the global bookkeeping of `FastNetworkSolver()` (ids distinct ⇒ `neuronLookup` injective;
+    the connections into `idx i` are exactly those emitted for node `i`, in `Incoming` order, across the three
+    `processIncomingConnections` passes), then `translation_partial` per neuron by induction on rank.
+  Both gaps are covered on the implementation by the correspondence (bit-exact model of all four paths and of the
+  translation) and by the executable specification (each path's outputs against `evalNode`).
 -/
 import GoNeat.Proofs.SolverFF
+import GoNeat.Proofs.FastFF
+import GoNeat.Proofs.SolverExact
 import GoNeat.Proofs.ScalarInt
 import GoNeat.Model.LegacySolver
 
@@ -77,6 +96,58 @@ theorem std_forward_outputs (net : Net W) (σ : Nat → W → Option W) (lvl : N
   apply List.map_congr_left
   intro o ho
   exact this o ho f (hf o ho)
+
+
+/-! ## fast solver -/
+section FastSolver
+open GoNeat.Fast
+
+/-- **Fast recursive activation (Kind A, exact).**  On an acyclic fast network (`FFFast`: every connection goes up
+    in rank) with total activations, from any state with arrays of the right length, `RecursiveSteps` succeeds and
+    every output neuron holds `fvalNode` - activation(Σ over `reverseAdjacentList` of signal·`adjacentMatrix`, then the
+    bias) of the current sensor signals, each neuron evaluated once. -/
+theorem fast_recursive_fval (fn : FastNet W) (σ : Nat → W → Option W) (lvl : Nat → Nat) (hff : FFFast fn lvl)
+    (hσ : ∀ i, fn.nSensor ≤ i → i < fn.nTotal → ∀ x, (σ (fn.acts.getD i 0) x).isSome = true)
+    (s : FState W) (hS : s.signals.length = fn.nTotal) (hP : s.processing.length = fn.nTotal) (hout : 0 < fn.nOutput) :
+    (Fast.recursiveSteps fn σ s).2 = (true, none) ∧
+      ∀ k, k < fn.nOutput →
+        fvalNode fn σ (getW s.signals) (lvl (fn.nSensor + k) + 1) (fn.nSensor + k) =
+          some (getW (Fast.recursiveSteps fn σ s).1.signals (fn.nSensor + k)) :=
+  recursiveSteps_ff fn σ lvl hff hσ s hS hP hout
+
+/-- **One forward step (Kind A, exact)**: every neuron becomes activation(Σ_{connections into it} signal·weight + bias)
+    of the signals before the step; sensors keep their signals; the processing cells are clean again.
+    (Partial with respect to `fast_forward`, see the header.) -/
+theorem fast_forward_partial (fn : FastNet W) (σ : Nat → W → Option W) (delta : W) (s : FState W)
+    (hS : s.signals.length = fn.nTotal) (hP : s.processing.length = fn.nTotal)
+    (hσ : ∀ i, fn.nSensor ≤ i → i < fn.nTotal → ∀ x, (σ (fn.acts.getD i 0) x).isSome = true)
+    (hzero : ∀ i, fn.nSensor ≤ i → i < fn.nTotal → getW s.processing i = Scalar.zero) :
+    (forwardStep fn σ delta s).2.2 = none ∧
+      (∀ j, j < fn.nSensor → getW (forwardStep fn σ delta s).1.signals j = getW s.signals j) ∧
+      (∀ i, fn.nSensor ≤ i → i < fn.nTotal →
+        σ (fn.acts.getD i 0) (biased fn i (tFold (getW s.signals) (fn.conns.filter fun c => c.dst == i) Scalar.zero)) =
+          some (getW (forwardStep fn σ delta s).1.signals i) ∧
+        getW (forwardStep fn σ delta s).1.processing i = Scalar.zero) :=
+  forwardStep_cell fn σ delta s hS hP hσ hzero
+
+end FastSolver
+
+/-- **Translation of one neuron (Kind B: exact arithmetic).**  `processIncomingConnections` for a neuron with fast
+    index `t` and incoming links `ls`: the new connections all target `t`, only `biases[t]` changes, and
+    Σ_{new connections} signal·weight + biases'[t] = biases[t] + Σ_{l ∈ ls} l.weight·value(l.source), when signals and
+    values agree through `neuronLookup` and bias sources have value 1.  (Partial w.r.t. `fval_eq_eval`, see header.) -/
+theorem translation_partial {K : Type} [Scalar K] [CommSemiring K] [ExactArith K]
+    (net : Net K) (lk : List (Int × Nat)) (t : Nat) (vals sig : Nat → K)
+    (ls : List (NLink K)) (b : List K) (c : List (Fast.FLink K)) (b' : List K) (c' : List (Fast.FLink K))
+    (ht : t < b.length)
+    (hrun : Fast.procIncoming.links net lk t ls b c = .ok (b', c'))
+    (hval : ∀ l ∈ ls, ∀ sn, net.nodes[l.src]? = some sn → (sn.kind == Kind.bias) = true → vals l.src = 1)
+    (hsig : ∀ l ∈ ls, ∀ sn sIdx, net.nodes[l.src]? = some sn → Fast.lookupId lk sn.id = some sIdx →
+      (sn.kind == Kind.bias) = false → sig sIdx = vals l.src) :
+    ∃ new, c' = c ++ new ∧ (∀ n ∈ new, n.dst = t) ∧ b'.length = b.length ∧
+      (∀ j, j ≠ t → Fast.getW b' j = Fast.getW b j) ∧
+      Fast.tFold sig new 0 + Fast.getW b' t = Fast.getW b t + Fast.linkSum vals ls 0 :=
+  Fast.translation_node net lk t vals sig ls b c b' c' ht hrun hval hsig
 
 /-! ## non-vacuity and the negative side, over the exact `Int` scalar -/
 section Examples
@@ -168,6 +239,15 @@ theorem recursive_legacy_counterexample :
       Fast.readOutputs biasFast (Fast.recursiveSteps biasFast sigmaInt (Fast.loadSensors biasFast [5] (Fast.init biasFast)).1).1 = [13] ∧
       Fast.readOutputs biasFast (Fast.Legacy.recursiveSteps biasFast sigmaInt (Fast.loadSensors biasFast [5] (Fast.init biasFast)).1).1 = [10] := by
   decide
+
+/-- the hypotheses of `fast_recursive_fval` hold for `biasFast` -/
+example : Fast.FFFast biasFast (fun i => if i == 2 then 1 else 0) :=
+  ⟨fun c hc => by simp [biasFast] at hc; subst hc; decide, fun j hj => by simp only [biasFast]; split <;> omega, by decide⟩
+example : Fast.fvalNode biasFast sigmaInt (Fast.getW (Fast.loadSensors biasFast [5] (Fast.init biasFast)).1.signals) 2 2
+    = some 13 := by decide
+/-- one forward step on the same solver: 2·5 + 3 = 13 -/
+example : Fast.readOutputs biasFast (Fast.forwardStep biasFast sigmaInt 0 (Fast.loadSensors biasFast [5] (Fast.init biasFast)).1).1
+    = [13] := by decide
 
 end Examples
 
